@@ -19,7 +19,7 @@ CFG = {
     "timeout": {"quick": 600, "thorough": 7200},
     "trusted_base": COMMON_TRUST + [
         "Unicode tables are parameters: U = char::is_uppercase and lower = str::to_lowercase. Theorems hold for every lower and every U (not_reserved needs U true on ASCII A-Z). "
-        "The harness sends is_uppercase and the per-character to_lowercase of every character used. str::to_lowercase is the per-character map except for capital sigma (context-sensitive final sigma): for names with capital sigma the driver instantiates lower from the whole-string lower-casings the closure really saw (echoed on the line), accepted as a lowering when it equals the per-character one up to the two lower-case sigmas",
+        "The harness sends is_uppercase and the per-character to_lowercase of every character used. str::to_lowercase is the per-character map except for capital sigma (context-sensitive final sigma): for names with capital sigma the harness sends the true str::to_lowercase of every offered candidate (candidate j = the function's result when exactly call j is accepted; independent of what the function passed to the closure) and the driver instantiates lower from that table, accepted as a lowering when it equals the per-character one up to the two lower-case sigmas",
         "the caller's FnMut closure is modelled as a function of (call number, string); a closure with other hidden state is covered by the theorems (any accept : Nat -> Str -> Bool) but not by the correspondence",
         "std::path::PathBuf::from(String) keeps the string (the harness reads it back with to_str)",
     ],
